@@ -6,7 +6,7 @@ import argparse
 import glob
 import logging
 import os
-from typing import List, Optional, Set, Tuple
+from typing import Dict, List, Optional, Set, Tuple
 
 from typing_extensions import Protocol
 
@@ -100,7 +100,15 @@ class ApplicationFileScanner:
         if did_error_scanning_files:
             files_to_parse.clear()
 
-        sorted_files_to_parse = sorted(files_to_parse)
+        # The same file can be reached through differently spelled arguments (for
+        # example, `docs` and `./docs`).  Only process that file once, keeping the
+        # spelling that sorts first so that the result does not depend on the order
+        # of the arguments.
+        unique_files_to_parse: Dict[str, str] = {}
+        for next_file in sorted(files_to_parse):
+            unique_files_to_parse.setdefault(os.path.realpath(next_file), next_file)
+
+        sorted_files_to_parse = sorted(unique_files_to_parse.values())
         LOGGER.info("Number of files found: %d", len(sorted_files_to_parse))
         did_only_list_files = ApplicationFileScanner.__handle_main_list_files(
             only_list_files, sorted_files_to_parse, handle_output, handle_error
